@@ -47,11 +47,14 @@ class DiskSeam:
         self.torn = torn
         self.writes = 0
         self.crashed_on = None
+        self.written = []  # paths (relative) this run opened for writing and was not killed on
 
     def __call__(self, file, mode="r", *a, **kw):
         path = str(file)
         if any(c in mode for c in "wax+") and path.startswith(self.out_dir):
             self.writes += 1
+            if not (self.crash_at is not None and self.writes == self.crash_at):
+                self.written.append(os.path.relpath(path, self.out_dir))
             if self.crash_at is not None and self.writes == self.crash_at:
                 self.crashed_on = os.path.relpath(path, self.out_dir)
                 if self.torn is None:
@@ -281,13 +284,14 @@ class Sim:
     """one simulated execution of the flow.  `mode`: "reference" (real sequential semantics) or "sim"."""
 
     def __init__(self, decider, clock, repo_quara_dir, max_yields=None, line_files=(), out_dir=None, probes=None, faults=None,
-                 proc_seed=0, pollution=None):
+                 proc_seed=0, pollution=None, mutators=None):
         self.d = decider
         self.clock = clock
         self.level = 0
         self.call_idx = 0
         self.quara_dir = repo_quara_dir
         self.line_files = tuple(line_files)
+        self.mutators = mutators  # {file basename: {qualified function names}}: line events only inside these (hot lines)
         self.max_yields = max_yields
         self.total_yields = 0
         self.out_dir = out_dir
@@ -505,7 +509,7 @@ class Sim:
             pass
         MON.register_callback(TOOL_ID, MON.events.PY_START, self._on_start)
         ev = MON.events.PY_START
-        if self.line_files:
+        if self.line_files or self.mutators:
             MON.register_callback(TOOL_ID, MON.events.LINE, self._on_line)
             ev |= MON.events.LINE
         MON.set_events(TOOL_ID, ev)
@@ -528,11 +532,19 @@ class Sim:
 
     def _on_line(self, code, line):
         fn = code.co_filename
-        if not fn.startswith(self.quara_dir) or not fn.endswith(self.line_files):
+        if not fn.startswith(self.quara_dir):
             return MON.DISABLE
-        self._yield_point(code.co_name, f"{os.path.basename(fn)}:{code.co_qualname}:{line}")
+        base = os.path.basename(fn)
+        if self.mutators is not None:
+            if code.co_qualname not in self.mutators.get(base, ()):
+                return MON.DISABLE
+            self._yield_point(code.co_name, f"{base}:{code.co_qualname}:{line}", hot=True)
+            return
+        if not fn.endswith(self.line_files):
+            return MON.DISABLE
+        self._yield_point(code.co_name, f"{base}:{code.co_qualname}:{line}")
 
-    def _yield_point(self, site, site_key=None):
+    def _yield_point(self, site, site_key=None, hot=False):
         phase = self.thread_phase
         if phase is None:
             return
@@ -569,6 +581,9 @@ class Sim:
                     self.site_counts[site_key] = max(self.site_counts.get(site_key, 0), c)
                 if pol.get("kind") == "site" and (site_key, c) in dec.get("_targets", ()):
                     do = True
+            if hot and pol.get("hot_rate") and self.d.rng.random() < pol["hot_rate"]:
+                do = True
+                self.bump(self.probes, "switch_on_hot_line_of_mutator_function")
             if pol.get("kind") == "pct":
                 pts = dec["_points"]
                 while pts and pts[0] <= y:
@@ -664,3 +679,62 @@ class SimClock:
 
     def __getattr__(self, name):
         return getattr(self._real, name)
+
+
+class EntryPollution:
+    """fault kind global_rng_pollution delivered *during* a run: at the k-th entry of a named quara function (a stage boundary
+    such as the start of a repetition) something else in the process - another component, a callback - draws from or
+    re-seeds the process-global random states.  Implemented with sys.monitoring local events on the target functions only,
+    so the rest of the run is not slowed down."""
+
+    TOOL = 3
+
+    def __init__(self, script, targets, stats):
+        self.script = [list(x) for x in script]  # [function name, occurrence, kind, arg]
+        self.targets = targets  # {name: code object}
+        self.stats = stats
+        self.seen = {}
+
+    def __enter__(self):
+        if not self.script:
+            return self
+        try:
+            MON.use_tool_id(self.TOOL, "poolsim-pollution")
+        except ValueError:
+            pass
+        MON.register_callback(self.TOOL, MON.events.PY_START, self._cb)
+        for name, code in self.targets.items():
+            if any(x[0] == name for x in self.script):
+                MON.set_local_events(self.TOOL, code, MON.events.PY_START)
+        return self
+
+    def _cb(self, code, offset):
+        name = code.co_name
+        c = self.seen.get(name, 0) + 1
+        self.seen[name] = c
+        for x in self.script:
+            if x[0] == name and x[1] == c:
+                kind, arg = x[2], x[3]
+                if kind == "draws":
+                    np.random.random(arg)
+                elif kind == "reseed":
+                    np.random.seed(arg)
+                elif kind == "py_reseed":
+                    pyrandom.seed(arg)
+                self.stats["global_rng_pollution"] = self.stats.get("global_rng_pollution", 0) + 1
+                self.stats["pollution_inside_run"] = self.stats.get("pollution_inside_run", 0) + 1
+
+    def __exit__(self, *exc):
+        if not self.script:
+            return False
+        for name, code in self.targets.items():
+            try:
+                MON.set_local_events(self.TOOL, code, 0)
+            except Exception:
+                pass
+        MON.register_callback(self.TOOL, MON.events.PY_START, None)
+        try:
+            MON.free_tool_id(self.TOOL)
+        except ValueError:
+            pass
+        return False
